@@ -145,6 +145,13 @@ def clauseExit (x : Expect) (es : List Ev) : List String :=
     else ["liveness unexpected-shutdown"]
   | some false => []
 
+/-- clause `refs`: the vital objects' reference counts are back where they were when backend() was entered: the
+    extra reference connection set-up takes on the master is returned on every path -/
+def clauseRefs (es : List Ev) : List String :=
+  es.filterMap (fun e => match e with
+    | .refs m x => if m == 0 && x == 0 then none else some s!"refs master={m} simul_efun={x}"
+    | _ => none)
+
 def judgeEv (x : Expect) (es : List Ev) : List String :=
   if !(clauseCrash es).isEmpty then clauseCrash es else
   let ex := hasExit es
@@ -184,6 +191,6 @@ def judgeEv (x : Expect) (es : List Ev) : List String :=
     | some n =>
       let live := (liveUsers [] es).length
       if n > live then [s!"leaked-conn slots={n} live-users={live}"] else []
-  v1 ++ v2 ++ v3 ++ v4 ++ v5 ++ v6 ++ v7
+  v1 ++ v2 ++ v3 ++ v4 ++ v5 ++ v6 ++ v7 ++ clauseRefs es
 
 end NV.C09
